@@ -1,0 +1,29 @@
+//go:build verif
+
+// Contract library for the cbv verifier (/verif): pure specification functions
+// shared by the contracts_*_verif.go files. Comment-only; compiled only under
+// the "verif" build tag.
+package corebgp
+
+//@ pure be16(b, i) = b[i]*256 + b[i+1]
+//@ pure be32(b, i) = ((b[i]*256 + b[i+1])*256 + b[i+2])*256 + b[i+3]
+//@ pure eqBytes(x, y) = len(x) == len(y) && (forall i :: 0 <= i && i < len(x) ==> x[i] == y[i])
+//@ pure markerOK(b) = forall i :: 0 <= i && i < 16 ==> b[i] == 255
+//@ pure isHeader(b, n, t) = len(b) >= 19 && markerOK(b) && be16(b, 16) == n && b[18] == t
+//@ pure wellFormedMsg(b) = len(b) >= 19 && len(b) <= 4096 && markerOK(b) && be16(b, 16) == len(b) && 1 <= b[18] && b[18] <= 4
+//@ pure isNotifMsg(b, c, s, d) = len(b) == 21 + len(d) && isHeader(b, 21 + len(d), 3) && b[19] == c && b[20] == s && (forall i :: 0 <= i && i < len(d) ==> b[21+i] == d[i])
+//@ pure suffixOf(b, b0) = b.arr == b0.arr && b.off >= b0.off && b.off + len(b) == b0.off + len(b0)
+//@ pure offsetIn(b, b0) = b.off - b0.off
+//@ pure bit(x, k) = (x / k) % 2 == 1
+
+// error classes of RFC 7606 as predicates over error values
+//@ pure isTAW(e, code, ncode, nsub) = isType(e, *TreatAsWithdrawUpdateErr) && asType(e, *TreatAsWithdrawUpdateErr) != nil && asType(e, *TreatAsWithdrawUpdateErr).Code == code && asType(e, *TreatAsWithdrawUpdateErr).Notification != nil && asType(e, *TreatAsWithdrawUpdateErr).Notification.Code == ncode && asType(e, *TreatAsWithdrawUpdateErr).Notification.Subcode == nsub
+//@ pure tawNotif(e) = asType(e, *TreatAsWithdrawUpdateErr).Notification
+//@ pure isAD(e, code, ncode, nsub) = isType(e, *AttrDiscardUpdateErr) && asType(e, *AttrDiscardUpdateErr) != nil && asType(e, *AttrDiscardUpdateErr).Code == code && asType(e, *AttrDiscardUpdateErr).Notification != nil && asType(e, *AttrDiscardUpdateErr).Notification.Code == ncode && asType(e, *AttrDiscardUpdateErr).Notification.Subcode == nsub
+//@ pure adNotif(e) = asType(e, *AttrDiscardUpdateErr).Notification
+//@ pure isNotif(e, ncode, nsub) = isType(e, *Notification) && asType(e, *Notification) != nil && asType(e, *Notification).Code == ncode && asType(e, *Notification).Subcode == nsub
+// "type, length (1 or 2 octets), value" of RFC 4271 section 6.3
+//@ pure attrTLV(d, code, v) = (len(v) <= 255 ? (len(d) == 2 + len(v) && d[0] == code && d[1] == len(v) && (forall i :: 0 <= i && i < len(v) ==> d[2+i] == v[i])) : (len(d) == 3 + len(v) && d[0] == code && be16(d, 1) == len(v) % 65536 && (forall i :: 0 <= i && i < len(v) ==> d[3+i] == v[i])))
+//@ pure wellKnownFlags(f) = !bit(f, 128) && bit(f, 64)
+//@ pure optTransFlags(f) = bit(f, 128) && bit(f, 64)
+//@ pure optNonTransFlags(f) = bit(f, 128) && !bit(f, 64)
